@@ -55,6 +55,25 @@ def check_cfg(ctx, fx, cfg):
         if not ctx.require(f is not None, "R07.1", "entry:%s@%s" % (e, cfg), "restart entry point not found"):
             continue
         ctx.require(e in fns and not f.get("is_async"), "R07.1", "entry:%s@%s" % (e, cfg), "restart must enqueue Payload::Restart synchronously through the forcing closure", fn=e, site=f["loc"])
+    # R07.6 identity: no new Context (hence no new ContextID) and no new channel is created while an actor lives —
+    # nothing reachable from the loops or the restart strategies constructs a Context or a mailbox queue
+    from mir import agg_sites
+    import chan
+    makers = set()
+    for f in fx.d["fns"]:
+        b = ctx.body(fx, f)
+        if any(True for _ in agg_sites(b, adt="context::Context")):
+            makers.add(f.get("root", f["def"]))
+    makers |= set(chan.constructors(fx))
+    live = [f["def"] for f, _k in loops.find_loops(fx)] + [co["def"] for _s, _f, co in loops.find_refresh(fx) if co]
+    reached = set()
+    for l in live:
+        reached |= set(graph.reach(fx, l, depth=4))
+    bad = sorted(makers & reached)
+    ctx.require(not bad and makers, "R07.6", "identity-kept@" + cfg, "a running actor (its loop or a restart strategy) can reach code that creates a new Context / mailbox: restart would change the actor's identity or mailbox: %s" % bad, site=fx.fn(bad[0])["loc"] if bad and fx.fn(bad[0]) else None, detail={"constructors": sorted(makers), "reachable_from_live_code": len(reached)})
+    # R07.5 messages before / after the request are ordered against it by the actor's single FIFO queue
+    from props.c01 import check_single_queue
+    check_single_queue(ctx, fx, cfg, "R07.5", "R07.5")
     # R07.2
     res = run_loops(ctx, fx, "R07.2", {"L10", "L7", "L13"})
     for f, kind, b, n in res:
